@@ -199,6 +199,11 @@ func safeString(r *gen.Rand, n int) string {
 		switch r.Intn(12) {
 		case 0:
 			sb.WriteString(gen.Pick(r, []string{"é", "✓", "日本", "\xff", "\x80", "\xc3"}))
+		case 1:
+			// printable escapes of dangerous bytes: harmless unless a helper decodes them
+			if r.Chance(1, 3) {
+				sb.WriteString(gen.Pick(r, []string{"%0d%0a", "%0A", "%0D", "%00", "%0e", "%7F", "%25", "\\r\\n", "&#13;&#10;", "\\u000a"}))
+			}
 		default:
 			sb.WriteByte(injSafe[r.Intn(len(injSafe))])
 		}
@@ -288,6 +293,7 @@ func runInject(e *ev.Env) {
 		{"cookie-value-crlf", "Cookie.Value", "v\r\nX-Evil: 1", "", 0},
 		{"cookie-name-crlf", "Cookie.Name", "n\r\nX-Evil: 1", "", 0},
 		{"cookie-path-crlf", "Cookie.Path", "/\r\nX-Evil: 1", "", 0},
+		{"cookie-path-percent-encoded-crlf", "Cookie.Path", "/x%0d%0aX-Evil:%201", "", 0}, // printable input, decoded by fasthttp's path normalisation
 		{"cookie-domain-crlf", "Cookie.Domain", "d\r\nX-Evil: 1", "", 0},
 		{"clearcookie-crlf", "ClearCookie", "k\r\nX-Evil: 1", "k2", 0},
 		{"set-nul", "Set", "a\x00b", "", 0},
@@ -411,7 +417,7 @@ func injectCase(e *ev.Env, c *ev.Case, h *helper, a injArgs, class string) {
 	hreq := injRequest(h, a)
 	detail := map[string]any{"helper": h.name, "v": show([]byte(a.V)), "w": show([]byte(a.W)), "level": int(a.Level), "status": a.Status,
 		"accept": a.Accept, "request": show(hreq)}
-	e.Journal(h.name + " " + hexOf(hreq))
+	journalInput(e, h.name, hreq)
 
 	// baseline: the same helper with a benign value teaches the header names
 	var bout []byte
@@ -437,6 +443,8 @@ func injectCase(e *ev.Env, c *ev.Case, h *helper, a injArgs, class string) {
 	e.Eval(1)
 	e.Nontrivial(h.name, class, itoa(len(a.V)/16), itoa(len(a.W)/16))
 	e.Stat("class_"+class, 1)
+	e.Stat("helper_"+h.name, 1)
+	e.Sample("helper-call", map[string]any{"helper": h.name, "class": class, "v": show([]byte(a.V)), "w": show([]byte(a.W))})
 	detail["output"] = show(out)
 
 	rs, perr := strict.ParseAll(out, nil)
